@@ -1274,7 +1274,10 @@ def _register_fn(U):
         "blake3_hash_many",
         "every dispatch branch, every output byte: out[32 i + j] == UFrow(inputs[i][0..64*blocks), key[0..8), counter "
         "(+ i iff increment_counter), flags, flags_start, flags_end, blocks)[j] for blocks <= 16 (1 and 16 are the "
-        "values blake3.c uses): all ten arguments reach the selected kernel unchanged", props=["C06"])
+        "values blake3.c uses): all ten arguments reach the selected kernel unchanged", props=["C06"],
+        harness="blake3_hash_many_fn",
+        bounded=["blocks <= 16 (rows of at most 1024 bytes = one chunk; blake3.c passes 1 or 16): the UF clause of the "
+                 "contract is stated for blocks <= 16 only; num_inputs <= 16 as in the base unit"])
     U["output_chaining_value_fn"] = _fn(
         "output_chaining_value",
         "cv[0..32) == little-endian words of UFcip(self->input_cv, self->block, self->block_len, self->counter, "
